@@ -189,7 +189,7 @@ def build_harness(variant="os", quiet=True):
     return harness_bin(variant)
 
 
-def run_harness(variant, args, env=None, timeout=900, stdin=None):
+def run_harness(variant, args, env=None, timeout=900, stdin=None, wrapper=None):
     e = dict(os.environ)
     e.pop("IPC_VERIF_TRACE", None)
     e.pop("IPC_VERIF_SEQ", None)
@@ -205,7 +205,7 @@ def run_harness(variant, args, env=None, timeout=900, stdin=None):
         if os.path.exists(e["IPC_VERIF_SEQ"]):
             os.remove(e["IPC_VERIF_SEQ"])
     try:
-        p = subprocess.run([harness_bin(variant)] + [str(a) for a in args], env=e, input=stdin,
+        p = subprocess.run(list(wrapper or []) + [harness_bin(variant)] + [str(a) for a in args], env=e, input=stdin,
                            stdout=subprocess.PIPE, stderr=subprocess.PIPE, timeout=timeout, text=True,
                            errors="replace")
     except subprocess.TimeoutExpired as ex:
